@@ -166,6 +166,17 @@ CHECKS = {
         note="Calendar year starts are read from the calculators (cross-checked against Calendars.tla for arithmetic calendars); BCL-style irregular rules are held to the self-consistency clauses, their exact shape is a reference clause.",
         technique="TLA+ declarative week-year definition checked by TLC + TLC trace validation of per-day observations",
     ),
+    "C17": dict(
+        category="model_checking",
+        text=("Iso8601.tla generates the ISO-8601 extended-format text of dates, times (shortest and nine-digit fractions), date-times, "
+              "instants and offsets over code points (fixed widths, no trailing zeros, Z); TLC checks the generators on a small domain; "
+              "for values over the domain shared with the standard library TLC checks that pyoda's text equals the generated text, that "
+              "datetime.fromisoformat reads it back to the same value, and that pyoda parses the standard library's isoformat() text to "
+              "the value. Thorough enumerates every date of years 1-9999."),
+        design_ref="DESIGN.md section 5 C17",
+        note="The independent reader (Python 3.12 datetime) truncates fractions to microseconds; offsets of whole minutes.",
+        technique="TLA+ ISO text generators + TLC trace validation of four-way agreement with the standard library",
+    ),
     "C18": dict(
         category="model_checking",
         text=("Intervals.tla defines DateInterval/Interval operations and TLC proves they are the set operations on all pairs over a "
